@@ -21,6 +21,16 @@ MODELLED = [
 ]
 
 
+# whole modules whose functions are NOT modelled but pinned all the same (every top-level function, docstrings
+# removed): the 2000-line cylinder-segment core with its case dispatcher determine_cases, and the Bulirsch
+# cel / el3 helpers.  An edit turns the Example red and triggers the large search; re-pin after review.
+PINNED_MODULES = [
+    "magpylib/_src/fields/field_BH_cylinder_segment.py",
+    "magpylib/_src/fields/special_el3.py",
+    "magpylib/_src/fields/special_cel.py",
+]
+
+
 class Untranslatable(Exception):
     pass
 
@@ -49,6 +59,15 @@ def fingerprints(repo):
             if nm not in top:
                 raise Untranslatable(f"{rel}: modelled function {nm} not found at module level")
             out.append((os.path.basename(rel)[:-3] + "." + nm, fingerprint(top[nm])))
+    for rel in PINNED_MODULES:
+        tree = ast.parse(open(os.path.join(repo, rel)).read())
+        funs = [n for n in tree.body if isinstance(n, ast.FunctionDef)]
+        if not funs:
+            raise Untranslatable(f"{rel}: no function definitions found")
+        h = hashlib.sha256()
+        for n in funs:
+            h.update((n.name + ":" + fingerprint(n) + ";").encode())
+        out.append((os.path.basename(rel)[:-3] + ".<all " + str(len(funs)) + " functions>", h.hexdigest()[:32]))
     return out
 
 
